@@ -31,13 +31,35 @@ def main(argv):
     t0 = time.time()
     status = "ok"
     try:
-        if spec.get("_replay") is not None:
-            mod.replay(ctxmod.unhex(spec["_replay"]), ctx)
+        rp = spec.get("_replay")
+        if rp is not None and not (isinstance(rp, dict) and rp.get("kind") == "whole-shard"):
+            mod.replay(ctxmod.unhex(rp), ctx)
+            if ctx.n_violations == 0 and "shard" in spec and not os.environ.get("PV_REPLAY_SINGLE"):
+                # the recorded case alone is silent: the violation may depend on what the process did before it
+                # (caches, memoised objects, session state) - repeat the whole shard the case came from
+                ctx.count("replay_fell_back_to_whole_shard")
+                mod.run(spec, ctx)
         else:
             mod.run(spec, ctx)
-    except BaseException:
+    except BaseException as exc:
         status = "crashed"
-        ctx.inconclusive.append("worker crashed: " + traceback.format_exc()[-3000:])
+        tb = traceback.extract_tb(exc.__traceback__)
+        inner = tb[-1] if tb else None
+        lib_frames = [f for f in tb if os.path.abspath(f.filename).startswith(os.path.abspath(pv.SRC) + os.sep)]
+        if isinstance(exc, Exception) and not isinstance(exc, MemoryError) and inner is not None and lib_frames \
+                and os.path.abspath(inner.filename).startswith(os.path.abspath(pv.SRC) + os.sep):
+            # raised inside the library and never caught by it nor expected by the check: every check guards the
+            # exceptions its property allows, so this is behaviour the reference model does not have (a verdict,
+            # replayable by re-running the shard); anything raised by the harness itself stays inconclusive
+            status = "ok"
+            ctx.violation("library-exception-escaped-into-the-harness:" + type(exc).__name__,
+                          dict(exception=repr(exc)[:300], raised_in=f"{os.path.basename(inner.filename)}:{inner.name}",
+                               entered_library_at=f"{os.path.basename(lib_frames[0].filename)}:{lib_frames[0].name}",
+                               traceback=traceback.format_exc()[-1500:]),
+                          dict(kind="whole-shard"))
+            ctx.inconclusive.append("shard aborted by the exception above (counters incomplete)")
+        else:
+            ctx.inconclusive.append("worker crashed: " + traceback.format_exc()[-3000:])
     res = ctx.dump()
     res["status"] = status
     res["wall_s"] = time.time() - t0
